@@ -55,7 +55,8 @@ _reg(ProdProp('C16', ['Ea.C16.loop_iterations_bounded', 'Ea.C16.loopNC_fst', 'Ea
 from props_tm import TmProp  # noqa: E402
 
 _reg(TmProp('C11', ['Ea.C11.reachable_inv', 'Ea.C11.at_most_one', 'Ea.C11.tstep_inv', 'Ea.C11.fifo', 'Ea.C11.dedup_newest', 'Ea.C11.submit_inv', 'Ea.C11.doneCb_inv'], ['sequential', 'limseq', 'dedup']))
-_reg(TmProp('C12', ['Ea.C12.bound', 'Ea.C12.skip_closes', 'Ea.C12.cancel_first_oldest', 'Ea.C12.cancel_last_newest', 'Ea.C12.slot_freed', 'Ea.C12.unbounded_starts_and_tracks'], ['parallel', 'limpar']))
+_reg(TmProp('C12', ['Ea.C12.bound', 'Ea.C12.skip_closes', 'Ea.C12.cancel_first_oldest', 'Ea.C12.cancel_last_newest', 'Ea.C12.slot_freed', 'Ea.C12.unbounded_starts_and_tracks',
+                    'Ea.C12.victim_cancelled_before_replacement'], ['parallel', 'limpar']))
 
 from props_filter import FilterProp  # noqa: E402
 
